@@ -327,6 +327,44 @@ def run(report):
             continue
         if len(samples) < 4 and len(want) >= 2 and any(len(g["values"]) >= 2 for g in want):
             samples.append({"argv": words, "groups": want, "justfile": t.files["justfile"]})
+    # Positional::from_values in-process (hook `positional`) against Just.Args.positional and, for the first word, against the
+    # character-level Just.Words.classify: every vector of up to three words over an alphabet of word shapes, search
+    # directories included (which the runs above leave to C16)
+    C.build_jv()
+    jv = C.Jv(timeout=300)
+    PW = ["r", "a=b", "a=", "=b", "a=b/c", "a=/", "a=..", "a==b", "a-b=c", "_a=1", "1a=2", "a b=c", "\u00e9=1", ".", "..", "./", "../", "/", "//", "d/r", "d/",
+          "/abs/r", "a/b/c", "d/r=1", "r=1/", ".=1", "..=..", "x::y", "x/y::z", "", " ", "=", "a=b=c/d", "-", "--", "..."]
+    vecs = [[]] + [[a] for a in PW] + [[a, b] for a in PW for b in PW] + [[a, b, c] for a in PW[:14] for b in PW[:14] for c in PW[:14]]
+    jres = jv.pbatch([{"op": "positional", "words": v} for v in vecs], chunk=5000)
+    mres = drv.pbatch([{"op": "positional", "words": v} for v in vecs], chunk=5000)
+    stats["positional_vectors"] = len(vecs)
+    for v, jr, mr in zip(vecs, jres, mres):
+        if "fatal" in mr:
+            raise C.BuildError("model driver: " + mr["fatal"])
+        got = {"overrides": [list(o) for o in jr.get("overrides", [])], "search_directory": jr.get("search_directory"), "arguments": jr.get("arguments")}
+        want = {"overrides": mr["overrides"], "search_directory": mr["search_directory"], "arguments": mr["arguments"]}
+        if got != want:
+            report.failure("c05-model-positional", "Positional::from_values and Just.Args.positional read %r differently" % (v,),
+                           {"correspondence": "C05 Positional::from_values vs Just.Args.positional", "words": v, "impl": got, "model": want}, no_input=True)
+            break
+        fw = mr.get("first_word")
+        if v and fw is not None:
+            if "override" in fw:
+                ok = got["overrides"][:1] == [fw["override"]]
+            elif "searchDir" in fw:
+                ok = got["overrides"] == [] and got["search_directory"] == fw["searchDir"] and got["arguments"][:1] == ([fw["first"]] if fw["first"] is not None else got["arguments"][:1]) and \
+                    (fw["first"] is not None or got["arguments"] == v[1:])
+            else:
+                ok = got["overrides"] == [] and got["search_directory"] is None and got["arguments"][:1] == [fw["argument"]]
+            if not ok:
+                report.failure("c05-model-words", "Just.Words.classify reads the first word of %r differently from Positional::from_values" % (v,),
+                               {"correspondence": "C05 first word vs Just.Words.classify", "words": v, "impl": got, "model": fw}, no_input=True)
+                break
+        # the statement, directly: a leading NAME=VALUE word with an identifier NAME is an override whatever VALUE holds
+        if v and re.match(r"^[A-Za-z_][A-Za-z0-9_-]*=", v[0]) and got["overrides"][:1] != [v[0].split("=", 1)]:
+            report.failure("c05-override-not-recognised", "the leading word %r is NAME=VALUE but was not taken as an override" % v[0],
+                           {"op": "positional", "words": v, "observed": got})
+            break
     report.coverage.update({
         "evaluations": len(cases),
         "distinct_nontrivial": len(distinct),
